@@ -120,6 +120,22 @@ let handle (toks : string list) : string =
   | "nested" :: seq -> (match nested_eval (List.map pstr_of_string seq) with None -> "None" | Some r -> string_of_pstr r)
   | "compileok" :: n :: k :: target :: seq ->
       bool_str (compile_ok (nat_of_int (int_of_string n)) (nat_of_int (int_of_string k)) (pstr_of_string target) (List.map pstr_of_string seq))
+  | "commutants" :: n :: gens -> strs (commutants (nat_of_int (int_of_string n)) (List.map pstr_of_string gens))
+  | "charges" :: n :: gens -> strs (charges (nat_of_int (int_of_string n)) (List.map pstr_of_string gens))
+  | "agraph" :: gens ->
+      let (_, es) = anticommutation_graph (List.map pstr_of_string gens) in
+      String.concat " " (List.map (fun ((a, b), c) -> string_of_pstr a ^ ":" ^ string_of_pstr b ^ ":" ^ string_of_pstr c) es)
+  | "cgraph" :: n :: gens ->
+      let (vs, es) = commutator_graph (nat_of_int (int_of_string n)) (List.map pstr_of_string gens) in
+      string_of_int (List.length vs) ^ " " ^ String.concat " " (List.map (fun ((a, b), _) -> string_of_pstr a ^ ":" ^ string_of_pstr b) es)
+  | "acomps" :: gens -> String.concat ";" (List.map strs (anti_components (List.map pstr_of_string gens)))
+  | "ccomps" :: n :: gens -> String.concat ";" (List.map strs (commutator_components (nat_of_int (int_of_string n)) (List.map pstr_of_string gens)))
+  | "otoc" :: n :: v :: w :: gens ->
+      (match otoc_counts (nat_of_int (int_of_string n)) (List.map pstr_of_string gens) (pstr_of_string v) (pstr_of_string w) with
+       | None -> "None" | Some (a, s) -> Printf.sprintf "%d %d" (int_of_nat a) (int_of_nat s))
+  | "complexity" :: n :: v :: gens ->
+      (match complexity_counts (nat_of_int (int_of_string n)) (List.map pstr_of_string gens) (pstr_of_string v) with
+       | None -> "None" | Some (a, s) -> Printf.sprintf "%d %d" (int_of_nat a) (int_of_nat s))
   | _ -> "ERR unknown request"
 
 let () =
